@@ -387,6 +387,7 @@ pub struct Outcome {
     pub file_node: Option<NodeId>,
     /// object removed / renamed by the op
     pub victim: Option<NodeId>,
+    pub victim_path: Option<Vec<Vec<u16>>>,
     /// paths (before the call) of open files with pending changes
     pub flux_paths: Vec<Vec<Vec<u16>>>,
 }
@@ -528,7 +529,7 @@ pub fn exec_step(w: &mut World, s: &mut Session, step: &Step) -> Result<(), Viol
     let now = w.clock.get();
     let step_no = w.step_no;
     let prop = w.prop.clone();
-    let mut out = Outcome { res: Ok(()), touch: vec![], touch_paths: vec![], is_file_op: false, mutating: false, file_node: None, victim, flux_paths: vec![] };
+    let mut out = Outcome { res: Ok(()), touch: vec![], touch_paths: vec![], is_file_op: false, mutating: false, file_node: None, victim, victim_path: victim.map(|n| w.model.path_of(n).iter().map(|x| x.encode_utf16().collect()).collect()), flux_paths: vec![] };
     out.flux_paths = s.files.iter().flatten().filter(|h| h.dirty).map(|h| w.model.path_of(h.node).iter().map(|x| x.encode_utf16().collect()).collect()).collect();
     let mut flux_file: Option<NodeId> = None;
 
